@@ -32,6 +32,7 @@ CONSTANTS
                 \* mmap threshold: such a block is handed back to the OS when it is freed); they are
                 \* not judged by NoGratuitousMap - Envelope and SteadyState still bound them
     EnvK, EnvC, \* envelope: footprint <= EnvK * peak padded demand + EnvC
+    HoleCap,    \* how many holes (extents of freed blocks) the reuse rule remembers (0: rule off)
     \* ---- only used by the bounded design (Next), not by the trace specification ----
     Ids,        \* block identities
     Sizes,      \* request sizes
@@ -49,6 +50,7 @@ VARIABLES
     pieces,   \* the same memory as granted by the OS, request by request (never merged)
     live,     \* set of live blocks [id, addr, size, align]
     call,     \* the allocator call in progress (NoCall between calls)
+    holes,    \* C04: extents [addr, size] of freed blocks near which nothing has been placed since
     plive,    \* C04: padded demand of the live blocks (sum of Pad over live)
     peak,     \* C04: peak padded demand so far
     reps,     \* C04: per repetition [mark |-> footprint at its end (all blocks freed),
@@ -57,7 +59,7 @@ VARIABLES
     base,     \* C04: number of leading repetitions that form the steady-state baseline
     obs       \* what was observed about the last step (flags logged by the recorder)
 
-vars == <<mapped, pieces, live, call, plive, peak, reps, hw, base, obs>>
+vars == <<mapped, pieces, live, call, holes, plive, peak, reps, hw, base, obs>>
 
 -----------------------------------------------------------------------------
 (* intervals *)
@@ -114,10 +116,19 @@ MaxGap(p) ==
 \* bytes a request needs in one extent, generously: alignment waste and book-keeping included
 Need(size, align) == size + 2 * align + Slack
 Fits(size, align) == \E p \in pieces : MaxGap(p) >= Need(size, align)
+\* The exact case of "freed space is reused": the extent a freed block occupied, as long as nothing
+\* has been placed within HoleGuard bytes of it and none of it went back to the OS, still holds a
+\* request of at most that size - no slack needed: whatever the allocator needed around the old
+\* block (header, padding) is still unused as well.  Only for requests of the alignment every block
+\* gets anyway (an over-aligned request needs room to slide).
+BaseAlign == 16
+HoleGuard == 128
+HoleWindow(h) == Iv(h.addr - HoleGuard, h.addr + h.size + HoleGuard)
+FitsHole(size, align) == align <= BaseAlign /\ \E h \in holes : h.size >= size
 \* an OS request made by the call in progress although its request fits into held free space
 Gratuitous == /\ call.op \in AllocOps \cup {"realloc"}
               /\ call.size < DirectMap
-              /\ Fits(call.size, call.align)
+              /\ (Fits(call.size, call.align) \/ FitsHole(call.size, call.align))
 
 -----------------------------------------------------------------------------
 (* observation record *)
@@ -130,6 +141,7 @@ Init ==
     /\ pieces = {}
     /\ live = {}
     /\ call = NoCall
+    /\ holes = {}
     /\ plive = 0
     /\ peak = 0
     /\ reps = <<>>
@@ -148,7 +160,7 @@ BeginEff(op, id, size, align) ==
                THEN Max2(peak, plive - SumPad({b \in live : b.id = id}) + Pad(size, align))
                ELSE peak
     /\ obs' = [Obs0 EXCEPT !.ev = "begin"]
-    /\ UNCHANGED <<mapped, pieces, live, plive, reps, hw, base>>
+    /\ UNCHANGED <<mapped, pieces, live, holes, plive, reps, hw, base>>
 
 \* the OS grants [lo, lo+size)
 MapEff(lo, size) ==
@@ -158,13 +170,13 @@ MapEff(lo, size) ==
     /\ pieces' = SubIv(pieces, Iv(lo, lo + size)) \cup {Iv(lo, lo + size)}
     /\ call' = [call EXCEPT !.nos = @ + 1]
     /\ hw' = IF TrackC04 THEN Max2(hw, SumWidth(AddIv(SubIv(mapped, Iv(lo, lo + size)), Iv(lo, lo + size)))) ELSE hw
-    /\ UNCHANGED <<live, plive, peak, reps, base>>
+    /\ UNCHANGED <<live, holes, plive, peak, reps, base>>
 
 \* the OS refuses a request for more memory
 RefuseEff ==
     /\ obs' = [Obs0 EXCEPT !.ev = "refuse", !.gratuitous = Gratuitous]
     /\ call' = [call EXCEPT !.refused = TRUE, !.nos = @ + 1]
-    /\ UNCHANGED <<mapped, pieces, live, plive, peak, reps, hw, base>>
+    /\ UNCHANGED <<mapped, pieces, live, holes, plive, peak, reps, hw, base>>
 
 \* [lo, hi) is handed back to the OS
 UnmapEff(lo, hi) ==
@@ -174,6 +186,7 @@ UnmapEff(lo, hi) ==
     /\ mapped' = SubIv(mapped, Iv(lo, hi))
     /\ pieces' = SubIv(pieces, Iv(lo, hi))
     /\ call' = [call EXCEPT !.nos = @ + 1]
+    /\ holes' = {h \in holes : ~Overlaps(HoleWindow(h), Iv(lo, hi))}
     /\ UNCHANGED <<live, plive, peak, reps, hw, base>>
 
 \* mremap in place: shrinking gives the tail back, growing maps the extension
@@ -202,6 +215,14 @@ RetEff(addr, content, zero, prefix) ==
                     ELSE IF call.op = "free" THEN plive - SumPad(old)
                     ELSE IF null THEN plive
                     ELSE plive - SumPad(old) + SumPad(new)
+        /\ holes' = LET put  == IF null \/ call.op = "free" THEN {} ELSE new
+                          kept == {h \in holes : \A b \in put : ~Overlaps(BlockIv(b), HoleWindow(h))}
+                          \* (not when the free itself handed memory back to the OS: what is left around
+                          \* the extent may then be too little - found by TLC on DlHeapMC: block freed into
+                          \* top, top trimmed below the old chunk's size)
+                          add  == IF call.op = "free" /\ HoleCap > 0 /\ call.nos = 0
+                                  THEN {[addr |-> b.addr, size |-> b.size] : b \in old} ELSE {}
+                      IN  IF Cardinality(kept \cup add) > HoleCap THEN add ELSE kept \cup add
         /\ call' = NoCall
         /\ UNCHANGED <<mapped, pieces, peak, reps, hw, base>>
 
@@ -212,7 +233,7 @@ RepEffAt(mark, high) ==
     /\ reps' = Append(reps, [mark |-> mark, high |-> Max2(high, mark)])
     /\ hw' = mark
     /\ obs' = [Obs0 EXCEPT !.ev = "rep"]
-    /\ UNCHANGED <<mapped, pieces, live, call, plive, peak, base>>
+    /\ UNCHANGED <<mapped, pieces, live, call, holes, plive, peak, base>>
 RepEff == RepEffAt(Footprint, hw)
 
 -----------------------------------------------------------------------------
